@@ -49,6 +49,16 @@ def layouts(tier):
         m([['%define ', N1, ' ', D1, ['s', 1], D1], ['%define ', ['ref', 0, 1], ' ', ['ref', 0, 3], ' ', ['ref', 0, 5]],
            ['k1 [$', ['ref', 0, 1], ']']]),
         m([['%define ', N1, ' ', D1, ['s', 2], D1], ['k1 [$', ['ref', 0, 1], ']']]),
+        # a value made of '$$' directly followed by the name being defined (an escaped dollar, not a reference)
+        m([['%define ', N1, ' $$', ['ref', 0, 1], D1], ['k1 [$', ['ref', 0, 1], ']']]),
+        m([['%define ', N2, ' $$', N2], ['k1 $', ['ref', 0, 1]]]),
+        # one definitions-only resource included twice in one load (two lines, and a diamond): an equal
+        # re-definition, accepted
+        [['main.conf', ['%include c.conf', '%include c.conf', ['k1 [$', N1, ']']]],
+         ['c.conf', [['%define ', N1, ' ', D1]]]],
+        [['main.conf', ['%include a.conf', '%include sub/b.conf', ['k1 [$', N1, ']']]],
+         ['a.conf', ['%include c.conf']], ['sub/b.conf', ['%include ../c.conf', 'k2 b']],
+         ['c.conf', [['%define ', N1, ' ', D1]]]],
         [['main.conf', [['%define ', N1, ' v'], '%include inc.conf', ['k2 $', N1]]],
          ['inc.conf', [['k1 $', N1], ['%define ', N1, ' w']]]],
         [['main.conf', ['%include a/inc.conf', ['k2 $', N1]]],
